@@ -74,6 +74,8 @@ type c12Conn struct {
 	reads   atomic.Int64
 	postEnd atomic.Int64
 	spun    atomic.Bool
+
+	deadlineCalls atomic.Int64
 }
 
 func c12NewConn(name string) *c12Conn {
@@ -209,6 +211,12 @@ func (c *c12Conn) Close() error {
 	c.mu.Unlock()
 	return nil
 }
+
+// Deadline setters: a relay that finds them through a type assertion is recorded (a
+// deadline put on the application's socket can cut a slow but legal transfer).
+func (c *c12Conn) SetDeadline(time.Time) error      { c.deadlineCalls.Add(1); return nil }
+func (c *c12Conn) SetReadDeadline(time.Time) error  { c.deadlineCalls.Add(1); return nil }
+func (c *c12Conn) SetWriteDeadline(time.Time) error { c.deadlineCalls.Add(1); return nil }
 
 func (c *c12Conn) closeWrite() {
 	c.mu.Lock()
